@@ -7,7 +7,7 @@
 //! sequence of thread ids chosen, and can be replayed, enumerated (DFS with a preemption bound)
 //! or randomised (seeded).
 
-pub use iceoryx2_pal_concurrency_sync::verif_hook::Site;
+pub use iceoryx2_pal_concurrency_sync::verif_hook::{Kind, Site};
 use iceoryx2_pal_concurrency_sync::verif_hook::{self, ord_name};
 use serde_json::{Value, json};
 use std::cell::RefCell;
